@@ -100,6 +100,10 @@ func SelfTest() error {
 	if MRZInformation("AB123", "74<<<<", "120415") != "AB123<<<<"+string(CheckDigit("AB123<<<<"))+"74<<<<"+string(CheckDigit("74"))+"1204159" {
 		return fmt.Errorf("MRZInformation padding")
 	}
+	// DG1 of the 9303-6 specimen (72 characters => 61 4B 5F1F 48 ...)
+	if d := EncodeDG1(specimens[2].want); hex.EncodeToString(d[:5]) != "614b5f1f48" || string(d[5:]) != specimens[2].want {
+		return fmt.Errorf("EncodeDG1 = %x", d)
+	}
 	// the positions of every layout tile the whole zone exactly once
 	for _, l := range []*layout{&td1, &td2, &td3} {
 		seen := make([]int, l.length)
